@@ -192,10 +192,16 @@ def mutations(y, pos=0):
     fw = list(y["firewall"])
     if fw:
         f0, fl = first(fw), last(fw)
-        d = m(); del d["firewall"][f0]; yield "firewall-missing-rule", d
+        if len(set(__import__("ast").literal_eval(f0))) == 2:
+            d = m(); del d["firewall"][f0]; yield "firewall-missing-rule", d
+        # (only a rule the topology requires: a misspelt key of an optional rule inside one subnet leaves a valid file)
+        import ast
+        needed = [k for k in fw if len(set(ast.literal_eval(k))) == 2]
         for tag, junk in (("extra-paren", ")"), ("second-pair", ", (0, 1)"), ("word", " x")):
-            d = m(); v = d["firewall"].pop(fl); d["firewall"][fl + junk] = v; yield f"firewall-pair-trailing-{tag}", d
-        d = m(); del d["firewall"][fl]; yield "firewall-missing-last-rule", d
+            if needed:
+                d = m(); v = d["firewall"].pop(last(needed)); d["firewall"][last(needed) + junk] = v; yield f"firewall-pair-trailing-{tag}", d
+        if len(set(__import__("ast").literal_eval(fl))) == 2:
+            d = m(); del d["firewall"][fl]; yield "firewall-missing-last-rule", d
         d = m(); d["firewall"][f0] = sv; yield "firewall-rule-not-a-list", d
         d = m(); d["firewall"][fl] = None; yield "firewall-rule-none", d
         d = m(); d["firewall"][f0] = [sv, sv]; yield "firewall-duplicate-service", d
